@@ -326,6 +326,13 @@ def computed_field_schema_clause(ctx):
     run.floor('CMP', n, 2, 'paths of get_new_fields')
 
 
+def _ancestors_until(node, stop):
+    n = getattr(node, '_parent', None)
+    while n is not None and n is not stop:
+        yield n
+        n = getattr(n, '_parent', None)
+
+
 def find_replace_clause(ctx):
     run, repo = ctx.run, ctx.repo
     w, i_ = wrapper_of(ctx, 'find_replace')
@@ -354,6 +361,14 @@ def find_replace_clause(ctx):
             if isinstance(p, ast.For) and p is not loop:
                 fors.append(p)
         ok = ok and len(fors) == 2 and "'patterns'" in u(fors[0].iter)
+    # every listed field of every row is treated: the loops over the fields and over their patterns are not left early (a `break`
+    # on one field - a null value, say - would skip the fields listed after it)
+    exits_ = [x for x in ast.walk(loop) if isinstance(x, (ast.Break, ast.Return)) or
+              (isinstance(x, ast.Continue) and not any(isinstance(p_, ast.For) and p_ is not loop for p_ in _ancestors_until(x, loop)))]
+    run.check(not exits_, 'CMP', where(repo, exits_[0]) if exits_ else where(repo, loop), w.qualname,
+              'no break / return inside the per-row work of find_replace',
+              'the loop over the listed fields (or over their patterns) is left early: fields listed after the one that triggers the exit '
+              'are not treated in that row')
     run.check(ok, 'CMP', where(repo, loop), w.qualname, "row[f] = re.sub(str(find), str(replace), str(row[f])) for each pattern of each field",
               'find_replace does not substitute sequentially within the listed field')
 
